@@ -285,7 +285,7 @@ def check(ctx):
     ctx.ob("S7", "PUBLISH payload type dispatch ends in a raise", bool(tguard), where="src/mqtt/pdu.py", construct="mqtt.pdu.PUBLISH/payload-type-raise",
            msg="a payload that is neither bytearray nor str does not raise")
     big = None
-    for x in ast.walk(method_of(prog, mod.classes["PUBLISH"], "encode").node):
+    for x in (y for s in pub.body for y in ast.walk(s)):      # encode() with its helpers inlined
         if isinstance(x, ast.If) and any(isinstance(y, ast.Raise) for y in x.body) and isinstance(x.test, ast.Compare) and len(x.test.ops) == 1:
             ok, cst = prog.try_fold(x.test.comparators[0], mod)
             if ok and isinstance(cst, int) and cst > 65535:
